@@ -276,7 +276,7 @@ where
             }
             6 => {
                 // grow of an existing block through the original must fail and leave the block alone
-                if let Some(i) = (!ctx.sh.blocks.is_empty()).then(|| ctx.rng.below(ctx.sh.blocks.len())) {
+                if let Some(i) = (!ctx.sh.blocks.is_empty()).then(|| ctx.rng.below(ctx.sh.blocks.len())).filter(|&i| !ctx.sh.blocks[i].ro) {
                     let (p, l) = (ctx.sh.blocks[i].ptr, ctx.sh.blocks[i].layout);
                     let nl = Layout::from_size_align(l.size() + ctx.rng.range(1, 40), l.align()).unwrap();
                     ctx.begin(format!("claim: original.grow block#{}", ctx.sh.blocks[i].id));
@@ -288,7 +288,7 @@ where
             }
             7 => {
                 // deallocate through the original does nothing (the block stays ours: we simply keep it)
-                if let Some(i) = (!ctx.sh.blocks.is_empty()).then(|| ctx.sh.blocks.len() - 1) {
+                if let Some(i) = (!ctx.sh.blocks.is_empty()).then(|| ctx.sh.blocks.len() - 1).filter(|&i| !ctx.sh.blocks[i].ro) {
                     let (p, l) = (ctx.sh.blocks[i].ptr, ctx.sh.blocks[i].layout);
                     ctx.begin(format!("claim: original.deallocate block#{} (must do nothing)", ctx.sh.blocks[i].id));
                     // the block is handed back, so it is no longer ours afterwards
@@ -299,7 +299,7 @@ where
                 }
             }
             _ => {
-                if let Some(i) = (!ctx.sh.blocks.is_empty()).then(|| ctx.sh.blocks.len() - 1) {
+                if let Some(i) = (!ctx.sh.blocks.is_empty()).then(|| ctx.sh.blocks.len() - 1).filter(|&i| !ctx.sh.blocks[i].ro) {
                     let (p, l) = (ctx.sh.blocks[i].ptr, ctx.sh.blocks[i].layout);
                     let nl = Layout::from_size_align(l.size() / 2, l.align()).unwrap();
                     ctx.begin(format!("claim: original.shrink block#{} (must do nothing)", ctx.sh.blocks[i].id));
